@@ -20,7 +20,7 @@ class Lib:
     def ptype(self, classes):
         r = self.rng.random()
         if r < 0.55 or not classes:
-            return self.rng.choice(INT_TYPES[:6] + ['bool', 'double', 'float'])
+            return self.rng.choice(INT_TYPES[:6] + ['bool', 'double', 'float', 'char *const', 'const char *'])
         c = '::' + self.rng.choice(classes)
         return self.rng.choice(['%s *', 'const %s &', '%s &', 'const %s *', '%s']) % c
 
@@ -57,6 +57,9 @@ class Lib:
                 for bn in rng.sample(pool, min(len(pool), rng.choice([1, 1, 2]))):
                     bases.append({'name': bn, 'access': rng.choice(['public', 'public', 'public', 'protected', 'private']), 'virtual': rng.random() < 0.15})
             cls = {'name': name, 'bases': bases, 'sections': [], 'keyword': rng.choice(['class', 'struct'])}
+            if rng.random() < 0.5:
+                # a class constant of some visibility used in array bounds of published members
+                cls['const'] = {'name': 'kN%d' % k, 'vis': rng.choice(['public', 'protected', 'protected', 'private']), 'value': rng.choice([2, 3, 5])}
             known = names + [name] + self.ext_bases
             mid = 0
             for sec in range(rng.randrange(1, 5)):
@@ -123,6 +126,13 @@ class Lib:
             if c['bases']:
                 b = ' : ' + ', '.join(('virtual ' if x['virtual'] else '') + x['access'] + ' ' + x['name'] for x in c['bases'])
             out.append('%s %s%s {' % (c['keyword'], c['name'], b))
+            if c.get('const'):
+                k_ = c['const']
+                out.append('%s:' % k_['vis'])
+                out.append('  static const int %s = %d;' % (k_['name'], k_['value']))
+                out.append('__published:')
+                out.append('  int arr_%s[%s];' % (k_['name'], k_['name']))
+                out.append('  void fill_%s(int values[%s * 2]);' % (k_['name'], k_['name']))
             for s in c['sections']:
                 out.append('%s:' % s['vis'])
                 for m in s['members']:
